@@ -153,10 +153,7 @@ def _stage_outputs(gen, ks, dm, nspin, model, rng_state):
             res["pot%d" % s] = p
         out["nldfgen"] = res
     if ni.sdmxgen is not None:
-        coords = np.ascontiguousarray(ks.grids.coords[:600])
-        f = ni.sdmxgen.get_features(dm, ks.mol, coords)
-        res = {"feat": np.asarray(f)}
-        out["sdmxgen"] = res
+        out["sdmxgen"] = _sdmx_stage(ks, dm, nspin, r)
     # model evaluation on features (C kernels)
     nf = model.settings.nfeat
     nsl = model.settings.sl_settings.nfeat
@@ -165,6 +162,47 @@ def _stage_outputs(gen, ks, dm, nspin, model, rng_state):
     res_, dres_ = model(X, rhocut=1e-9)
     out["model"] = {"res": res_, "dres": dres_}
     return out
+
+
+SDMX_BLOCKS = (600, 997, 1504)
+
+
+def _sdmx_stage(ks, dm, nspin, r):
+    """SDMX forward (features) and backward (XC matrix contribution) on grid blocks of several lengths: the per-thread
+    block length of the contraction routines depends on (ngrids, team size)."""
+    ni = ks._numint
+    res = {}
+    nao = ks.mol.nao
+    for nb in SDMX_BLOCKS:
+        nb = min(nb, ks.grids.coords.shape[0])
+        coords = np.ascontiguousarray(ks.grids.coords[:nb])
+        f = np.asarray(ni.sdmxgen.get_features(dm, ks.mol, coords))
+        res["feat%d" % nb] = f
+        vf = r.normal(size=f.shape) * ks.grids.weights[:nb]
+        vm = np.zeros((nao, nao)) if nspin == 1 else np.zeros((2, nao, nao))
+        ni.sdmxgen.get_vxc_(vm, vf[0] if (nspin == 1 and vf.ndim == 3) else vf)
+        res["vxc%d" % nb] = vm
+    ni.sdmxgen._cached_ao_data = None
+    return res
+
+
+def _cheap_outputs(ks, dm, nspin, model, rng_state):
+    """Stages cheap enough to be repeated at many team sizes."""
+    out = {}
+    r = np.random.default_rng(rng_state)
+    if ks._numint.sdmxgen is not None:
+        out["sdmxgen"] = _sdmx_stage(ks, dm, nspin, r)
+    nf = model.settings.nfeat
+    nsl = model.settings.sl_settings.nfeat
+    for n in (7, 1001):
+        X = r.normal(size=(nspin, nf, n))
+        X[:, :nsl] = np.exp(r.uniform(np.log(1e-2), np.log(5.0), size=(nspin, nsl, n)))
+        res_, dres_ = model(X, rhocut=1e-9)
+        out["model%d" % n] = {"res": res_, "dres": dres_}
+    return out
+
+
+EXTRA_TEAMS = (3, 6, 7, 12)
 
 
 def _sweep(case, rec, rng):
@@ -204,6 +242,17 @@ def _sweep(case, rec, rng):
                 for st in out:
                     _cmp(rec, case, st, T, first[st], out[st], "repeat")
         rec.tag("team_size", T)
+    # cheap stages at further (non power-of-two) team sizes
+    set_threads(1)
+    cref = _cheap_outputs(ks, dm, nspin, model, state)
+    for T in EXTRA_TEAMS:
+        if T in teams:
+            continue
+        set_threads(T)
+        cout = _cheap_outputs(ks, dm, nspin, model, state)
+        for st in cout:
+            _cmp(rec, case, st, T, cref[st], cout[st], "team")
+        rec.tag("team_size_cheap_stages", T)
     set_threads(1)
     rec.tag("stages", sorted(ref.keys()))
     bit = {k: v for k, v in rec.notes.items() if k.startswith("bitwise[")}
